@@ -14,6 +14,8 @@ claimed = {
  "C10": ("Unwinding assertion on the real VM loop: every path over the nullable-body family must return within a budget two orders of magnitude above the measured maximum; exhausted budgets are replayed natively under a timeout.", "5/C10"),
  "C11": ("The real evaluator (executeExpression) is executed symbolically against the documented operator/coercion table with symbolic operator, operand kinds and values (64-bit ints, symbolic strings, bools); the real Pratt parser is checked against the documented precedence levels for all operator sequences up to the bound.", "5/C11"),
  "C12": ("The real checker is compared with the documented typing table (accept iff listed, inferred type, accepted code evaluates to that type) for every operator x operand-type combination, and with a reference statement checker over skeleton x expression-menu programs in both contexts through the real Compile.", "5/C12"),
+ "C14": ("Real Compile+Run of regex literals against an independent backtracking regex engine written in the harness (own parser, groups numbered by opening parenthesis) on every ASCII text up to the bound: spans and group bindings.", "5/C14"),
+ "C15": ("Relational check through the real lexer and parser: for every gap of every corpus program (symbolic index) and every filler kind the program stays accepted with an identical syntax tree; comment bodies and keyword letter case are symbolic.", "5/C15"),
  "C16": ("The real lexer on quote + arbitrary ASCII bytes + quote (every spelling of every string that fits the bound) against refUnescape; API level: the compiled literal matches exactly the spelled text among all texts of that length.", "5/C16"),
  "C20": ("The real segment matcher against the recursive definition of '*' with every pattern/name byte symbolic, and the real ParsePath/GetFileList over the model file system with symbolic entry names and is-directory bits.", "5/C20"),
  "C13": ("Relational check real-vs-real: named (inline subroutine / global pattern) and written-out sources must give equal matches on every text up to the bound; repeated Run, recompilation, and a write-footprint check (bytecode frozen during Run).", "5/C13"),
